@@ -160,7 +160,7 @@ def check(prop, tier, seed, replay=None):
         dim = rng.choice([2, 3, 5])
         q = rng.choice([4, 8, 16, 32, 64])
         metric = rng.randint(0, 1)
-        n = rng.choice([5, 40, 95, 104, 130, 230, 330, 520] if prop == 'C05' else [0, 3, 60, 100, 101, 140, 260, 420])
+        n = rng.choice(([5, 40, 95, 104, 130, 230, 330] + ([520] if tier == 'thorough' else [])) if prop == 'C05' else [0, 3, 60, 100, 101, 140, 260, 420])
         scenario = None
         if ci < 2 or rng.random() < 0.1:
             # the first two collections of every run are the dedicated scenarios
